@@ -44,6 +44,51 @@ import (
 
 func init() {
 	execs["c11.conn"] = execC11Conn
+	execs["c11.magic"] = func(in sx.V) sx.V {
+		p, err := liteclient.NewPacket(append([]byte{}, in.Bytes...))
+		if err != nil {
+			return sx.A("err")
+		}
+		return sx.N(uint64(p.MagicType()))
+	}
+}
+
+// packets a client consumes itself (lite_api.tl / ton_api.tl): tcp.pong random_id:long is
+// exactly magic + 8 bytes; tcp.authentificationNonce is recognised by its magic
+func c11IsControl(p []byte) bool {
+	if len(p) < 4 {
+		return false
+	}
+	m := binary.LittleEndian.Uint32(p)
+	return (m == c11MagicPong && len(p) == 12) || m == c11MagicAuthNonce
+}
+
+// payloads around the boundary of that filter
+func c11FilterBoundary(r *prng.R, withAuth bool) [][]byte {
+	mk := func(magic uint32, n int) []byte {
+		p := r.Bytes(n)
+		if n >= 4 {
+			binary.LittleEndian.PutUint32(p, magic)
+		} else {
+			var m [4]byte
+			binary.LittleEndian.PutUint32(m[:], magic)
+			copy(p, m[:n])
+		}
+		return p
+	}
+	var ps [][]byte
+	for _, n := range []int{3, 4, 5, 8, 11, 12, 13, 16, 20, 76} {
+		ps = append(ps, mk(c11MagicPong, n))
+	}
+	ps = append(ps, mk(c11MagicPing, 12), mk(c11MagicPing, 20), mk(0x0fac8416, 24), []byte{}, []byte{0x60}, append([]byte{0x61}, r.Bytes(2)...))
+	if withAuth {
+		ps = append(ps, mk(c11MagicAuthNonce, 4), mk(c11MagicAuthNonce, 40))
+	}
+	for i := len(ps) - 1; i > 0; i-- {
+		j := r.Intn(i + 1)
+		ps[i], ps[j] = ps[j], ps[i]
+	}
+	return ps
 }
 
 type c11Future struct {
@@ -125,8 +170,9 @@ func c11RunChild(line string, limit time.Duration) sx.V {
 // ---------- the scenario (runs in the child) ----------
 
 const (
-	c11MagicPing = 0x4d082b9a
-	c11MagicPong = 0xdc69fb03
+	c11MagicPing      = 0x4d082b9a
+	c11MagicPong      = 0xdc69fb03
+	c11MagicAuthNonce = 0xe35d4ab6
 )
 
 func c11ReadFrame(r io.Reader, rx cipher.Stream) ([]byte, error) {
@@ -358,7 +404,17 @@ func c11ConnScenario(in sx.V) sx.V {
 		}
 		ms = append(ms, sx.L(vs...))
 	}
-	return sx.L(sx.Nat(handshakes), sx.L(received...), sx.L(ms...))
+	rtt := sx.A("na")
+	total := 0
+	for _, se := range sessions {
+		for _, g := range se.gaps {
+			total += g
+		}
+	}
+	if len(sessions) == 1 && total >= 6000 {
+		rtt = sx.B(c.AverageRoundTrip() > 0) // pings were answered
+	}
+	return sx.L(sx.Nat(handshakes), sx.L(received...), sx.L(ms...), sx.Nat(int(c.Status())), rtt)
 }
 
 // ---------- generator ----------
@@ -370,7 +426,7 @@ type c11ConnCase struct {
 	n     int
 }
 
-func c11ConnSession(r *prng.R, k int, drop string, gaps []int, nMarked int) (sx.V, [][]byte) {
+func c11ConnSession(r *prng.R, k int, drop string, gaps []int, nMarked int, boundary [][]byte) (sx.V, [][]byte) {
 	var pk []sx.V
 	var data [][]byte
 	for i, g := range gaps {
@@ -378,12 +434,14 @@ func c11ConnSession(r *prng.R, k int, drop string, gaps []int, nMarked int) (sx.
 		switch {
 		case i == 0:
 			p[0] = 0x51 // names the session
+		case i >= 2 && i-2 < len(boundary): // payloads around the reader's pong / auth-nonce filter
+			p = boundary[i-2]
 		case r.Chance(8): // a tcp.pong with an unknown id: consumed by Connection.reader
 			p = make([]byte, 12)
 			binary.LittleEndian.PutUint32(p, c11MagicPong)
 			copy(p[4:], r.Bytes(8))
 		}
-		if !(len(p) == 12 && binary.LittleEndian.Uint32(p) == c11MagicPong) {
+		if !c11IsControl(p) {
 			data = append(data, p)
 		}
 		pk = append(pk, sx.L(sx.Nat(g), sx.Bytes(p)))
@@ -407,7 +465,11 @@ func c11ConnSteady(r *prng.R, maxGap int) c11ConnCase {
 		gaps = append(gaps, g)
 		total += g
 	}
-	s, data := c11ConnSession(r, 0, "end", gaps, 2)
+	boundary := c11FilterBoundary(r, true)
+	for len(gaps) < len(boundary)+3 {
+		gaps = append(gaps, 250+r.Intn(200))
+	}
+	s, data := c11ConnSession(r, 0, "end", gaps, 2, boundary)
 	return c11ConnCase{in: sx.L(sx.Bytes(r.Bytes(32)), sx.L(s)), class: fmt.Sprintf("conn|steady13s|maxgap%d", maxGap), want: data, n: 1}
 }
 
@@ -417,10 +479,10 @@ func c11ConnReconnect(r *prng.R, drops []string) c11ConnCase {
 	var want [][]byte
 	for k, d := range drops {
 		var gaps []int
-		for i := 0; i < 2+r.Intn(3); i++ {
+		for i := 0; i < 3+r.Intn(3); i++ {
 			gaps = append(gaps, 40+r.Intn(150))
 		}
-		s, data := c11ConnSession(r, k, d, gaps, 1+r.Intn(2))
+		s, data := c11ConnSession(r, k, d, gaps, 1+r.Intn(2), c11FilterBoundary(r, false)[:1+r.Intn(2)])
 		ss = append(ss, s)
 		want = append(want, data...)
 	}
@@ -443,8 +505,8 @@ func c11ConnCases(c *Ctx) []c11ConnCase {
 func c11ConnCollect(c *Ctx, cs []c11ConnCase) {
 	for _, k := range cs {
 		out := c.Emit("c11.conn", k.in, k.class)
-		ok := out.K == sx.KL && len(out.List) == 3 && out.List[0].K == sx.KN && out.List[0].I() == k.n &&
-			len(out.List[1].List) == len(k.want)
+		ok := out.K == sx.KL && len(out.List) == 5 && out.List[0].K == sx.KN && out.List[0].I() == k.n &&
+			len(out.List[1].List) == len(k.want) && out.List[3].String() == "n1" && !out.List[4].IsA("f") && out.List[4].String() != "f"
 		for i := 0; ok && i < len(k.want); i++ {
 			ok = bytes.Equal(out.List[1].List[i].Bytes, k.want[i])
 		}
@@ -455,11 +517,43 @@ func c11ConnCollect(c *Ctx, cs []c11ConnCase) {
 		}
 		if !ok {
 			got := trunc(out.String(), 40)
-			if out.K == sx.KL && len(out.List) == 3 && out.List[0].K == sx.KN {
-				got = fmt.Sprintf("%d handshakes (history has %d sessions), %d of %d packets received", out.List[0].I(), k.n, len(out.List[1].List), len(k.want))
+			if out.K == sx.KL && len(out.List) == 5 && out.List[0].K == sx.KN {
+				got = fmt.Sprintf("%d handshakes (history has %d sessions), %d of %d packets received, status %s, round trip measured %s", out.List[0].I(), k.n, len(out.List[1].List), len(k.want), out.List[3].String(), out.List[4].String())
+				for i := 0; i < len(k.want) && i < len(out.List[1].List); i++ {
+					if !bytes.Equal(out.List[1].List[i].Bytes, k.want[i]) {
+						got += fmt.Sprintf("; first difference at packet %d: sent %d bytes %x.., received %d bytes", i, len(k.want[i]), k.want[i][:c11Min(len(k.want[i]), 8)], len(out.List[1].List[i].Bytes))
+						break
+					}
+				}
 			}
 			c.Fail("c11.conn", k.in, "c11-connection-lifetime",
 				"NewConnection against the reference server over wall-clock time ("+k.class+"): expected exactly the scheduled sessions, every packet of every session received in order on the channel taken once from Responses(), every marked packet decoded by the server; got "+got)
+		}
+	}
+}
+
+func c11Min(a, b int) int {
+	if a < b {
+		return a
+	}
+	return b
+}
+
+// Packet.MagicType on short payloads and known magics
+func genC11Magic(c *Ctx) {
+	r := c.R
+	for n := 0; n <= 6; n++ {
+		p := r.Bytes(n)
+		c.Emit("c11.magic", sx.Bytes(p), fmt.Sprintf("magic|len%d", n))
+	}
+	for _, m := range []uint32{c11MagicPing, c11MagicPong, c11MagicAuthNonce, 0, 0xffffffff} {
+		for _, n := range []int{4, 12, 13} {
+			p := r.Bytes(n)
+			binary.LittleEndian.PutUint32(p, m)
+			out := c.Emit("c11.magic", sx.Bytes(p), "magic|known")
+			if out.K != sx.KN || out.Int.Uint64() != uint64(m) {
+				c.Fail("c11.magic", sx.Bytes(p), "c11-magic-type", "Packet.MagicType is not the little-endian first word of the payload")
+			}
 		}
 	}
 }
